@@ -21,6 +21,7 @@ type encCtx struct {
 	payload []byte
 	drr     *appencryption.DataRowRecord
 	msFrom  int
+	failed  bool // the public call returned an error (after an injected fault): there is no record to compare with
 }
 
 type c03state struct {
@@ -132,6 +133,9 @@ func (h *hist) c03Advance(ctx *encCtx) {
 			if op, ok := st.random[c.PlainFull]; !ok || op != ctx.label || st.sk[c.PlainFull] {
 				h.violate("c03-ik-wraps-non-drk", "%s: an intermediate key encrypted %d bytes that are not a data key generated in this call", ctx.label, c.DataLen)
 			}
+			if ctx.failed {
+				continue
+			}
 			want := fmt.Sprintf("%s|%d", h.ikID(ctx.s.part), ctx.drr.Key.ParentKeyMeta.Created)
 			if got := st.ik[c.Key]; got != "" && got != want {
 				h.violate("c03-drk-under-foreign-ik", "%s: data key wrapped under IK of row %s but the record names %s", ctx.label, got, want)
@@ -165,7 +169,7 @@ func (h *hist) c03Advance(ctx *encCtx) {
 			if st.drkUsed[c.Key] > 1 {
 				h.violate("c03-drk-reused", "%s: data key %x used for %d payload encryptions", ctx.label, c.Key[:6], st.drkUsed[c.Key])
 			}
-			if sha256.Sum256(ctx.drr.Data) != c.Cipher {
+			if !ctx.failed && sha256.Sum256(ctx.drr.Data) != c.Cipher {
 				h.violate("c03-record-data-not-aead-output", "%s: record Data is not the output of the payload encryption", ctx.label)
 			}
 			payloadEncs++
@@ -178,7 +182,7 @@ func (h *hist) c03Advance(ctx *encCtx) {
 		}
 	}
 	if ctx != nil {
-		if payloadEncs != 1 {
+		if payloadEncs != 1 && !(ctx.failed && payloadEncs == 0) {
 			h.violate("c03-payload-encryptions", "%s: %d payload encryptions under a fresh data key observed, want exactly 1", ctx.label, payloadEncs)
 		}
 		// learn which row each wrapped IK went to
@@ -211,7 +215,35 @@ func forms(b []byte) [][]byte {
 		b64 = b64[:len(b64)-1] // the last sextet depends on what follows
 	}
 	hx := hex.EncodeToString(b)
-	return [][]byte{b, []byte(b64), []byte(hx), []byte(strings.ToUpper(hx))}
+	out := [][]byte{b, []byte(b64), []byte(hx), []byte(strings.ToUpper(hx))}
+	// textual renderings a format verb or a debugger-style dump produces; if the value leaked in such a form, so did
+	// its first 12 bytes
+	p := b
+	if len(p) > 12 {
+		p = p[:12]
+	}
+	if len(p) >= 8 {
+		u := strings.NewReplacer("+", "-", "/", "_").Replace(b64)
+		if u != b64 {
+			out = append(out, []byte(u))
+		}
+		var dec, decComma, hexSp, hexColon, goSyn []string
+		for _, c := range p {
+			dec = append(dec, fmt.Sprintf("%d", c))
+			hexSp = append(hexSp, fmt.Sprintf("%02x", c))
+			goSyn = append(goSyn, fmt.Sprintf("0x%x", c))
+		}
+		decComma, hexColon = dec, hexSp
+		out = append(out,
+			[]byte(strings.Join(dec, " ")),       // %v / %d of a []byte
+			[]byte(strings.Join(decComma, ",")),  // JSON array of numbers
+			[]byte(strings.Join(decComma, ", ")), // pretty-printed
+			[]byte(strings.Join(hexSp, " ")),     // % x
+			[]byte(strings.Join(hexColon, ":")),
+			[]byte(strings.Join(goSyn, ", ")), // %#v
+		)
+	}
+	return out
 }
 
 func (st *c03state) formsOf(k []byte) [][]byte {
